@@ -52,7 +52,7 @@ func c13Body() func(h []dsim.Rec) {
 	unencodable := dsim.Choose(5) >= 3
 
 	kinds := []int{epCustom, epTCPServer, epTCPClient, epSerial, epUDPServer}
-	neps := 2 + dsim.Choose(2)
+	neps := 2 + dsim.Choose(depth(2, 4))
 	for i := 0; i < neps; i++ {
 		k := kinds[dsim.Choose(len(kinds))]
 		if i == 0 {
